@@ -812,19 +812,41 @@ impl Gen {
                 let use_splat = self.allow_splat && self.rng.chance(1, 2);
                 let mut params = vec![
                     Param { name: p1.clone(), dflt: None, splat: false },
-                    Param { name: p2.clone(), dflt: Some(dflt_expr), splat: false },
+                    Param { name: p2.clone(), dflt: Some(dflt_expr.clone()), splat: false },
                 ];
                 let body = if use_splat {
                     self.feat("lambda-splat");
-                    params = vec![
-                        Param { name: p1.clone(), dflt: None, splat: false },
-                        Param { name: p3.clone(), dflt: None, splat: true },
-                    ];
-                    Expr::Op("+".into(), b(Expr::Ident(p1.clone())), b(Expr::Call(b(Expr::Ident("len".into())), vec![Expr::Ident(p3.clone())])))
+                    match self.rng.below(3) {
+                        0 => {
+                            params = vec![
+                                Param { name: p1.clone(), dflt: None, splat: false },
+                                Param { name: p3.clone(), dflt: None, splat: true },
+                            ];
+                            Expr::Op("+".into(), b(Expr::Ident(p1.clone())), b(Expr::Call(b(Expr::Ident("len".into())), vec![Expr::Ident(p3.clone())])))
+                        }
+                        1 => {
+                            // a default AFTER the splat: the default applies only when no argument is left for it
+                            self.feat("lambda-splat-then-default");
+                            params = vec![
+                                Param { name: p1.clone(), dflt: None, splat: false },
+                                Param { name: p3.clone(), dflt: None, splat: true },
+                                Param { name: p2.clone(), dflt: Some(dflt_expr.clone()), splat: false },
+                            ];
+                            Expr::List(vec![Expr::Ident(p1.clone()), Expr::Ident(p3.clone()), Expr::Ident(p2.clone())])
+                        }
+                        _ => {
+                            self.feat("lambda-splat-then-default");
+                            params = vec![
+                                Param { name: p3.clone(), dflt: None, splat: true },
+                                Param { name: p2.clone(), dflt: Some(dflt_expr.clone()), splat: false },
+                            ];
+                            Expr::List(vec![Expr::Ident(p3.clone()), Expr::Ident(p2.clone())])
+                        }
+                    }
                 } else {
                     Expr::Op("*".into(), b(Expr::Ident(p1.clone())), b(Expr::Ident(p2.clone())))
                 };
-                let nargs = 1 + self.rng.below(3) as usize;
+                let nargs = self.rng.below(4) as usize;
                 let args: Vec<Expr> = (0..nargs).map(|_| self.gen_int(d - 1)).collect();
                 let call = Expr::Call(b(Expr::Ident(f.clone())), args);
                 let guarded = Expr::Try(b(call), Pat::Underscore, b(Expr::Int(-5)));
@@ -844,11 +866,17 @@ impl Gen {
                 let (kb, vb, into) = self.in_frame(|g| {
                     g.declare(&x, Ty::Int);
                     let kb = Expr::Op("%".into(), b(Expr::Ident(x.clone())), b(Expr::Int(*g.rng.pick(&[2, 3]))));
-                    let vb = g.gen_int(d - 1);
-                    let into = match g.rng.below(4) {
+                    let mut vb = g.gen_int(d - 1);
+                    if g.rng.chance(1, 2) {
+                        // an impure value expression: whether it runs for a key whose fold has already
+                        // closed (`into first`) is observable
+                        g.feat("yield-item-impure-value");
+                        vb = Expr::Seq(vec![Expr::Call(b(Expr::Ident("print".into())), vec![Expr::Ident(x.clone())]), vb], false);
+                    }
+                    let into = match g.rng.below(5) {
                         0 => Some(b(Expr::Ident("sum".into()))),
                         1 => Some(b(Expr::Ident("len".into()))),
-                        2 => Some(b(Expr::Ident("first".into()))),
+                        2 | 3 => Some(b(Expr::Ident("first".into()))),
                         _ => None,
                     };
                     (kb, vb, into)
